@@ -4,9 +4,10 @@
 // license that can be found in the LICENSE file or at
 // https://opensource.org/licenses/MIT.
 
+use std::io::{stderr, Write};
 use std::{error::Error, fmt, str::FromStr};
 
-use onig::{Regex, RegexOptions, Syntax};
+use onig::{MatchParam, Regex, RegexOptions, SearchOptions, Syntax};
 
 use super::{Matcher, MatcherIO, WalkEntry};
 
@@ -111,9 +112,24 @@ impl RegexMatcher {
 }
 
 impl Matcher for RegexMatcher {
-    fn matches(&self, file_info: &WalkEntry, _: &mut MatcherIO) -> bool {
-        self.regex
-            .is_match(file_info.path().to_string_lossy().as_ref())
+    fn matches(&self, file_info: &WalkEntry, matcher_io: &mut MatcherIO) -> bool {
+        let path = file_info.path().to_string_lossy();
+        // Regex::is_match() panics when the engine gives up (retry limit), so
+        // call the fallible variant and report the failure instead.
+        match self.regex.match_with_param(
+            path.as_ref(),
+            0,
+            SearchOptions::SEARCH_OPTION_NONE,
+            None,
+            MatchParam::default(),
+        ) {
+            Ok(matched) => matched == Some(path.len()),
+            Err(e) => {
+                writeln!(&mut stderr(), "Error matching regex against {path}: {e}").unwrap();
+                matcher_io.set_exit_code(1);
+                false
+            }
+        }
     }
 }
 
